@@ -251,6 +251,11 @@ func c04Reply(name string, reply int64) *conformancev1.ClientCompatResponse {
 
 func verifC04Flow(args []vsx) vsx {
 	sc := c04ParseScenario(args)
+	if sc.exitAfter == 0 {
+		// a client that is gone before the first batch: what run() does then depends on
+		// isRunning() after a clean exit, which belongs to C10
+		return vL(vS("bad-case"))
+	}
 	var handled, sentOK atomic.Int64
 	var exited atomic.Bool
 	var exitResult error
@@ -396,8 +401,18 @@ func c04Pattern(model string) string {
 
 func verifC04Run(args []vsx) vsx {
 	sc := c04ParseScenario(args)
-	if len(sc.batches) > len(c04Instances) || sc.exitAfter >= 0 {
-		return vL(vS("bad-case"))
+	if len(sc.batches) == 0 || len(sc.batches) > len(c04Instances) || sc.exitAfter >= 0 {
+		return vL(vS("bad-case")) // outside what this kind drives (no suites would mean the embedded ones)
+	}
+	for _, names := range sc.batches {
+		if len(names) == 0 {
+			return vL(vS("bad-case")) // run() skips empty batches
+		}
+	}
+	for _, n := range append(append([]string{}, sc.kf...), sc.kfl...) {
+		if _, known := sc.replies[n]; !known {
+			return vL(vS("bad-case")) // a pattern that matches nothing is rejected by run() (C08)
+		}
 	}
 	dir, err := os.MkdirTemp("", "verif-c04-")
 	if err != nil {
@@ -417,7 +432,7 @@ func verifC04Run(args []vsx) vsx {
 			RelevantCompressions: []conformancev1.Compression{conformancev1.Compression_COMPRESSION_IDENTITY},
 		}
 		for _, n := range names {
-			if !strings.HasPrefix(n, suiteName+"/") {
+			if !strings.HasPrefix(n, suiteName+"/") || len(n) == len(suiteName)+1 || strings.ContainsAny(n[len(suiteName)+1:], "/ :*") {
 				return vL(vS("bad-case"))
 			}
 			tc := c04Case(strings.TrimPrefix(n, suiteName+"/"))
@@ -490,7 +505,9 @@ func verifC04Run(args []vsx) vsx {
 		Parallelism:          1,
 	}, logPr, errPr)
 	if err != nil {
-		return vL(vS("err"), vS("run-returned-error"), vS(err.Error()))
+		// Run refused the scenario before running anything.  Never equal to a model result, so it
+		// shows up as a disagreement in a check, but is skipped as ill-formed while shrinking.
+		return vL(vS("bad-case"), vS("run-returned-error"), vS(err.Error()))
 	}
 	msgs := logPr.take()
 	for i, m := range msgs {
